@@ -3,6 +3,7 @@ import os, sys
 sys.path.insert(0, os.path.join(os.path.dirname(os.path.abspath(__file__)), "tools"))
 from vlib import Unit
 
+POLYSEED_STR_SIZE_PLUS1 = 600  # unwinding bound for specification loops over a polyseed_str (must exceed POLYSEED_STR_SIZE; too small => unwinding assertion => UNDECIDED)
 UNITS = []
 def U(**kw):
     UNITS.append(Unit(**kw))
@@ -76,5 +77,27 @@ U(name="U.api.store", harness="harness/api_store.c", mode="D", enforce="polyseed
 U(name="U.api.load", harness="harness/api_load.c", mode="D", enforce="polyseed_load",
   replace=["polyseed_data_load", "polyseed_data_to_poly", "gf_poly_check", "polyseed_features_supported", "polyseed_free"],
   functions=["polyseed_load"], unwind=50, props=["C06", "C02", "C10", "C13", "C14", "C15"])
+
+# ---------------------------------------------------------------- string layer, mode H
+U(name="U.str.nfkd_lazy", harness="harness/str_nfkd_lazy.c", mode="H", loops=True, profiles=["nfkd_lazy"],
+  functions=["utf8_nfkd_lazy"], loop_contracts=["utf8_nfkd_lazy"], chars=("signed", "unsigned"),
+  expect_loop_obligations=2, props=["C14", "C17", "C19", "C12"])
+
+U(name="U.str.split", harness="harness/str_split.c", mode="H", loops=True, profiles=["str_split"],
+  functions=["str_split"], loop_contracts=["str_split"], expect_loop_obligations=4, unwind=POLYSEED_STR_SIZE_PLUS1,
+  props=["C09", "C14"], timeout=900)
+
+U(name="B.str.split_ref", harness="harness/str_split_ref.c", mode="P", unwind=41,
+  bounded="NUL-terminated buffer of at most 40 bytes (all contents); loops unrolled to the buffer size",
+  functions=["str_split"], props=["C09"], timeout=900)
+
+U(name="U.str.write", harness="harness/str_write.c", mode="H", loops=True, profiles=["write_str"],
+  functions=["write_str"], loop_contracts=["write_str"], expect_loop_obligations=2, unwind=POLYSEED_STR_SIZE_PLUS1,
+  props=["C03", "C17"], timeout=900)
+
+for kind in ("STR", "PREFIX", "STR_NOACCENT", "PREFIX_NOACCENT"):
+    U(name="B.cmp." + kind.lower(), harness="harness/cmp_func.c", mode="P", defines=["CMP_" + kind], unwind=12,
+      bounded="key <= 10 bytes, list element <= 8 bytes (all byte values); loops unrolled to those lengths",
+      functions=["compare_" + kind.lower()], chars=("signed", "unsigned"), props=["C08", "C19"], timeout=900)
 
 BY_NAME = {u.name: u for u in UNITS}
